@@ -9,7 +9,8 @@
    Every Resolve call is a thread of Model/Resolver.v; here a thread additionally has a role: target of a mountpoint
    or neighbour.  A sub-step of such a thread is the Resolver sub-step followed, when it returns a layer, by the
    registration (target) or by Done (neighbour).
-   Check(mountpoint): the registered layer's Check(); if that fails, Refresh through the source; no state change.
+   Check(mountpoint): the registered layer's Check(); if that fails, Refresh through the source (which replaces the blob's
+   fetcher when it is accepted).
    Unmount(mountpoint): unregister, Close the layerRef (evicting). *)
 From Coq Require Import List Arith ZArith Bool.
 From SV Require Model.Refcache.
@@ -40,9 +41,10 @@ Fixpoint unreg (mp : nat) (l : list (nat * nat)) : list (nat * nat) :=
 Inductive fop :=
 | FMount (mp n : nat) (nbs : list nat)     (* start Mount: target name n, neighbour names nbs *)
 | FStep (t : nat) (ok : bool)              (* one sub-step of a Resolve call started by some Mount *)
-| FCheck (mp : nat) (ok1 ok2 : bool)       (* Check: ok1 = connectivity check, ok2 = registry on Refresh *)
+| FCheck (mp : nat) (ok1 : bool) (r : rfo)  (* Check: ok1 = connectivity check, r = what the registry answers to the Refresh *)
 | FUnmount (mp : nat)
 | FUse (mp : nat)
+| FProbe (mp : nat)                         (* read through the mounted layer that has to go to the registry *)
 | FExpireL (n : nat)
 | FExpireB (n : nat).
 
@@ -61,6 +63,13 @@ Definition after_ret (s : fst_) (r : Resolver.st) (t : nat) (e : ev) (u : nat) :
   | _ => mkF r (mnts s) (roles s)
   end.
 
+(* layer.Check(): error when the layer or its blob is closed, else the outcome of the connectivity check *)
+Definition check_ev (s : Resolver.st) (u : nat) (ok : bool) : ev :=
+  match nth_error (uh s) u with
+  | Some (h, _) => let '(a, b) := layer_flags s h in if negb a && negb b && ok then ENone else EErr
+  | None => ENone
+  end.
+
 Definition fstep (s : fst_) (o : fop) : fst_ * ev :=
   match o with
   | FMount mp n nbs =>
@@ -68,13 +77,13 @@ Definition fstep (s : fst_) (o : fop) : fst_ * ev :=
   | FStep t ok =>
       let '(r, e) := Resolver.step (rs s) (RStep t ok) in
       (after_ret s r t e (length (uh (rs s))), e)
-  | FCheck mp ok1 ok2 =>
+  | FCheck mp ok1 r =>
       match lookup mp (mnts s) with
       | None => (s, EErr)                                   (* "layer not registered" *)
       | Some u =>
-          match snd (Resolver.step (rs s) (Refresh u ok1)) with     (* l.Check(): closed -> error, else ok1 *)
+          match check_ev (rs s) u ok1 with                  (* l.Check() *)
           | ENone => (s, ENone)
-          | _ => (s, snd (Resolver.step (rs s) (Refresh u ok2)))    (* l.Refresh(...) *)
+          | _ => let '(r1, e) := Resolver.step (rs s) (Refresh u r) in (mkF r1 (mnts s) (roles s), e)   (* l.Refresh(...) *)
           end
       end
   | FUnmount mp =>
@@ -86,6 +95,11 @@ Definition fstep (s : fst_) (o : fop) : fst_ * ev :=
       match lookup mp (mnts s) with
       | None => (s, EErr)
       | Some u => (s, snd (Resolver.step (rs s) (Use u)))
+      end
+  | FProbe mp =>
+      match lookup mp (mnts s) with
+      | None => (s, EErr)
+      | Some u => (s, snd (Resolver.step (rs s) (Probe u)))
       end
   | FExpireL n => (mkF (fst (Resolver.step (rs s) (ExpireL n))) (mnts s) (roles s), ENone)
   | FExpireB n => (mkF (fst (Resolver.step (rs s) (ExpireB n))) (mnts s) (roles s), ENone)
